@@ -10,7 +10,7 @@ func init() {
 		MinEvals: 50000,
 		Rule: "case = (maxBlockSize in {1,2,3,5,8,16,64}, concurrent writers, background PutB parked on the wire or not, initial state empty | generated non-normalized manifest) " +
 			"+ a sequence of 50-400 operations generated against the current model state: OpenFile with every flag combination, Write, Read, Seek, Truncate, Stat, Mkdir, Remove(All), Rename, Readdir, Flush, MarshalManifest, Sync, " +
-			"several handles per file, sizes 0..3 blocks around block boundaries, paths with ./.. // and trailing-slash spellings; every result is compared with a byte-array-per-file model " +
+			"several handles per file, sizes 0..3 blocks around block boundaries, interspersed flush-race bursts (scattered small overwrites of one file, Flush(dir,true) whose PutB is parked, writes through a second handle while it is parked, release, read back), paths with ./.. // and trailing-slash spellings; every result is compared with a byte-array-per-file model " +
 			"(must-succeed / must-fail-with-class / unspecified), whole tree compared after every save and at the end; non-trivial = at least one byte written or a non-empty initial manifest; " +
 			"distinct = distinct (block size, writers, init, parked writes seen, background flush seen, rename/truncate/sparse write seen, open-flag combinations bucket, set of must-fail rules that fired)",
 		Assume: []string{
